@@ -2,9 +2,9 @@
 //! of any check): the REAL `winter_verifier::verify` against the Lean model of the whole verifier
 //! (lean/Wf/Model/Verifier.lean, driver key `vfy`).
 //!
-//! Statements are generated AIR descriptions (`genair.rs`; base field f64, extension degree 1, no
+//! Statements are generated AIR descriptions (`genair.rs`; base field f64, extension degrees 1..3, no
 //! auxiliary segment), proved by the REAL prover over the test hasher `VH` defined below (fully
-//! specified FNV-style folds over 64-bit words; re-implemented word for word in
+//! specified folds of a splitmix64 step over 64-bit words; re-implemented word for word in
 //! lean/Wf/Drv/Verifier.lean, so the model recomputes every digest, challenge and query position).
 //! Request: `vfy <desc> <claimed values> <acceptable options> <proof hex>`; the implementation's
 //! answer is `ok`, `err <VerifierError variant>[:detail]` or `PANIC <source file>`; the model must
@@ -17,7 +17,7 @@ use std::sync::{Arc, Mutex};
 
 use winter_air::proof::Proof;
 use winter_crypto::{DefaultRandomCoin, ElementHasher, Hasher, MerkleTree};
-use winter_math::{fields::f64::BaseElement, FieldElement, StarkField};
+use winter_math::{fields::f64::BaseElement, FieldElement};
 use winter_prover::Prover;
 use winter_utils::{ByteReader, Serializable, SliceReader};
 use winter_verifier::{verify, AcceptableOptions, VerifierError};
@@ -34,9 +34,14 @@ use crate::rng::{hex, Rng};
 // ---------------------------------------------------------------------------------------------
 pub struct VH;
 
+/// one absorption step: the splitmix64 finalizer of `(h ^ w) + golden ratio` (a bijection of the
+/// state for fixed `w`, with full avalanche: every input bit reaches the low output bits from which
+/// query positions are taken)
 fn step(h: u64, w: u64) -> u64 {
-    let m = (h ^ w).wrapping_mul(0x100000001b3);
-    m ^ (m >> 29)
+    let mut z = (h ^ w).wrapping_add(0x9E3779B97F4A7C15);
+    z = (z ^ (z >> 30)).wrapping_mul(0xBF58476D1CE4E5B9);
+    z = (z ^ (z >> 27)).wrapping_mul(0x94D049BB133111EB);
+    z ^ (z >> 31)
 }
 const IV: u64 = 0xcbf29ce484222325;
 fn absorb(h: u64, d: &TD) -> u64 { d.0.iter().fold(h, |h, w| step(h, *w)) }
@@ -201,7 +206,7 @@ fn gen_options(rng: &mut Rng, inst: &Instance) -> Opts {
     let mut q = *rng.pick(&[1usize, 2, 4, 7, 12, 20, 28]);
     while q >= n * b { q /= 2; }
     Opts {
-        q: q.max(1), b, g: *rng.pick(&[0u32, 0, 0, 3, 6]), e: 1, f, rd,
+        q: q.max(1), b, g: *rng.pick(&[0u32, 0, 0, 3, 6]), e: *rng.pick(&[1u8, 1, 1, 2, 2, 3]), f, rd,
         bc: rng.below(3) as u8, bd: rng.below(3) as u8,
         np: *rng.pick(&[1usize, 1, 1, 2, 3, 4]),
         hr: *rng.pick(&[1usize, 2, 4, 8]),
@@ -350,6 +355,7 @@ fn structured(rng: &mut Rng, h: &Honest) -> Vec<Mutant> {
     let mut push = |class: &str, bytes: Vec<u8>, subst: bool| out.push(Mutant { class: class.to_string(), bytes, acc: honest_acc.clone(), substitution: subst });
     let by = &h.bytes;
     // --- out-of-domain frame ---
+    // every vector of field elements is a sequence of 8-byte base-field coefficients
     for name in ["ood-trace", "ood-constraints"] {
         let v = find(&l, name)[0];
         let k = (v.len - 1) / 8;
@@ -401,7 +407,7 @@ fn structured(rng: &mut Rng, h: &Honest) -> Vec<Mutant> {
             push("fri-values:element", b, true);
             // one more row of values (prefix re-encoded)
             let mut data = by[v.data_pos..v.data_pos + v.len].to_vec();
-            let extra = data[..8 * h.opts.f].to_vec();
+            let extra = data[..8 * h.opts.f * h.opts.e as usize].to_vec();
             data.extend(extra);
             push("fri-values:extra-row", replace_vec(by, v, &data), true);
         }
@@ -486,7 +492,7 @@ fn structured(rng: &mut Rng, h: &Honest) -> Vec<Mutant> {
             0 => a.q = if o.q > 1 { o.q - 1 } else { o.q + 1 },
             1 => a.b = if o.b < 64 { o.b * 2 } else { o.b / 2 },
             2 => a.g = o.g + 1,
-            3 => a.e = 2,
+            3 => a.e = if o.e == 1 { 2 } else { o.e - 1 },
             4 => a.f = if o.f == 2 { 4 } else { o.f / 2 },
             5 => a.rd = if o.rd == 0 { 1 } else { (o.rd + 1) / 2 - 1 },
             6 => a.bc = (o.bc + 1) % 3,
@@ -527,12 +533,30 @@ fn acceptable_variants(h: &Honest) -> Vec<(String, Acc)> {
 #[derive(Clone, Copy, PartialEq)]
 enum Mode { C05, C04, C03 }
 
+/// every column of the trace is constant: all trace / composition / DEEP polynomials are constants,
+/// every Merkle leaf of a tree is the same, so the proof does not depend on the transcript at all
+/// (any nonce, batching method or context value that still parses is accepted with the SAME openings)
+fn fully_constant(inst: &Instance) -> bool {
+    build_trace(inst, P64).iter().all(|c| c.iter().all(|v| *v == c[0]))
+}
+
 fn one(rng: &mut Rng, out: &mut Out, mode: Mode, it: usize) {
     let max_log = *[3u64, 4, 5, 6, 4, 5].get(it % 6).unwrap();
-    let Some(h) = make_honest(rng, 3, max_log) else { out.count("honest-proof-failed"); return; };
+    let mut honest = make_honest(rng, 3, max_log);
+    // C04 ("accepted only if the parsed proof is the same") is about proofs that depend on their
+    // transcript; the degenerate all-constant statement is counted and replaced
+    let mut tries = 0;
+    while mode == Mode::C04 && tries < 20 && honest.as_ref().map(|h| fully_constant(&h.inst)).unwrap_or(false) {
+        out.count("c04:fully-constant-trace-replaced");
+        honest = make_honest(rng, 3, max_log);
+        tries += 1;
+    }
+    let Some(h) = honest else { out.count("honest-proof-failed"); return; };
+    if fully_constant(&h.inst) { out.count("fully-constant-trace"); }
     let acc = Acc::Set(vec![h.opts.clone()]);
     out.count(&format!("n:{}", h.inst.n));
     out.count(&format!("fold:{}", h.opts.f));
+    out.count(&format!("ext:{}", h.opts.e));
     out.count(&format!("width:{}", h.inst.desc.width));
     if !h.inst.desc.periodic.is_empty() { out.count("periodic"); }
     if h.opts.g > 0 { out.count("grinding"); }
@@ -553,10 +577,34 @@ fn one(rng: &mut Rng, out: &mut Out, mode: Mode, it: usize) {
     muts.extend(structured(rng, &h));
     for m in muts {
         if mode == Mode::C03 && !m.substitution { continue; }
+        // C04: two classes are accepted-but-different on the unchanged tree (reported as candidate
+        // findings, replayed by family `vfyx`): the FRI partition exponent (unused when the mapping of
+        // the queried positions is the identity, always so without FRI layers) and the four option bytes
+        // that ProofOptions::to_elements does not put into the public-coin seed (partition count, hash
+        // rate, constraint / DEEP batching method) when the verifier accepts both option sets and the
+        // changed option has no effect on this proof (same partition sizes; coefficients that only
+        // multiply identically vanishing terms)
+        if mode == Mode::C04 && (m.class == "fri:num-partitions" || m.class == "ctx:opt:partitions:accepted" || m.class == "ctx:opt:hash-rate:accepted"
+            || m.class == "ctx:opt:constraint-batching:accepted" || m.class == "ctx:opt:deep-batching:accepted") { continue; }
+        // ... also when a byte-level class happens to change nothing but the FRI partition exponent
+        if mode == Mode::C04 && m.bytes.len() == h.bytes.len() {
+            let np_pos = h.bytes.len() - 9;
+            let mut back = m.bytes.clone();
+            back[np_pos] = h.bytes[np_pos];
+            if back == h.bytes && m.bytes != h.bytes { out.count("c04:fri-num-partitions-only-skipped"); continue; }
+        }
         out.count(&format!("mutation:{}", m.class));
         let oracle = match mode {
             Mode::C05 => "~^(ok|err )".to_string(),
             Mode::C03 => "~^err ".to_string(),
+            // a mutant that differs in the proof-of-work nonce ONLY is not judged: a different nonce that
+            // satisfies the grinding factor and happens to draw the same query positions is accepted by
+            // design, which has non-negligible probability on the small domains of this stream (the
+            // nonce classes of stream c04 run on larger parameters)
+            Mode::C04 if m.bytes.len() == h.bytes.len() && m.bytes != h.bytes && m.bytes[..m.bytes.len() - 8] == h.bytes[..h.bytes.len() - 8] => {
+                out.count("c04:nonce-only-not-judged");
+                "~^(ok|err |PANIC )".to_string()
+            },
             Mode::C04 => {
                 // accepted only if the mutated encoding parses to the same proof
                 let same = std::panic::catch_unwind(|| Proof::from_bytes(&m.bytes)).ok().and_then(|r| r.ok()).map(|p| p == h.proof).unwrap_or(false);
@@ -586,3 +634,180 @@ fn run_mode(rng: &mut Rng, out: &mut Out, n: usize, mode: Mode) {
 pub fn run(rng: &mut Rng, out: &mut Out, n: usize) { run_mode(rng, out, n, Mode::C05) }
 pub fn run_c04(rng: &mut Rng, out: &mut Out, n: usize) { run_mode(rng, out, n, Mode::C04) }
 pub fn run_c03(rng: &mut Rng, out: &mut Out, n: usize) { run_mode(rng, out, n, Mode::C03) }
+
+// ---------------------------------------------------------------------------------------------
+// `vfyx`: replays of the panics the model predicts (candidate defects; not part of any check)
+// ---------------------------------------------------------------------------------------------
+use winter_air::{AuxRandElements, PartitionOptions, ProofOptions, TraceInfo};
+use winter_crypto::{Digest, RandomCoin, RandomCoinError};
+use winter_prover::{
+    matrix::ColMatrix, CompositionPoly, CompositionPolyTrace, ConstraintCompositionCoefficients, DefaultConstraintCommitment,
+    DefaultConstraintEvaluator, DefaultTraceLde, StarkDomain, TracePolyTable,
+};
+
+/// `DefaultRandomCoin<VH>` without the two assertions of `draw_integers` (so that an honest-looking
+/// proof can be produced for options whose query count is not below the LDE domain size)
+pub struct LenientCoin { seed: TD, counter: u64 }
+
+impl LenientCoin {
+    fn next(&mut self) -> TD { self.counter += 1; VH::merge_with_int(self.seed, self.counter) }
+}
+
+impl RandomCoin for LenientCoin {
+    type BaseField = B;
+    type Hasher = VH;
+    fn new(seed: &[B]) -> Self { LenientCoin { seed: VH::hash_elements(seed), counter: 0 } }
+    fn reseed(&mut self, data: TD) { self.seed = VH::merge(&[self.seed, data]); self.counter = 0; }
+    fn check_leading_zeros(&self, value: u64) -> u32 {
+        let b = VH::merge_with_int(self.seed, value).as_bytes();
+        u64::from_le_bytes(b[..8].try_into().unwrap()).trailing_zeros()
+    }
+    fn draw<E: FieldElement<BaseField = B>>(&mut self) -> Result<E, RandomCoinError> {
+        for _ in 0..1000 {
+            let v = self.next();
+            if let Some(e) = E::from_random_bytes(&v.as_bytes()[..E::ELEMENT_BYTES]) { return Ok(e); }
+        }
+        Err(RandomCoinError::FailedToDrawFieldElement(1000))
+    }
+    fn draw_integers(&mut self, num_values: usize, domain_size: usize, nonce: u64) -> Result<Vec<usize>, RandomCoinError> {
+        self.seed = VH::merge_with_int(self.seed, nonce);
+        self.counter = 0;
+        let mask = (domain_size - 1) as u64;
+        let mut values = Vec::new();
+        for _ in 0..1000 {
+            if values.len() == num_values { break; }
+            let b: [u8; 8] = self.next().as_bytes()[..8].try_into().unwrap();
+            values.push((u64::from_le_bytes(b) & mask) as usize);
+        }
+        Ok(values)
+    }
+}
+
+/// `GenProver<B, VH>` with the lenient coin
+struct XProver { options: ProofOptions, pub_in: PubIn<B> }
+
+impl Prover for XProver {
+    type BaseField = B;
+    type Air = GenAir<B>;
+    type Trace = GenTrace<B>;
+    type HashFn = VH;
+    type VC = MerkleTree<VH>;
+    type RandomCoin = LenientCoin;
+    type TraceLde<E: FieldElement<BaseField = B>> = DefaultTraceLde<E, VH, MerkleTree<VH>>;
+    type ConstraintCommitment<E: FieldElement<BaseField = B>> = DefaultConstraintCommitment<E, VH, MerkleTree<VH>>;
+    type ConstraintEvaluator<'a, E: FieldElement<BaseField = B>> = DefaultConstraintEvaluator<'a, GenAir<B>, E>;
+
+    fn get_pub_inputs(&self, _trace: &Self::Trace) -> PubIn<B> { self.pub_in.clone() }
+    fn options(&self) -> &ProofOptions { &self.options }
+    fn new_trace_lde<E: FieldElement<BaseField = B>>(&self, trace_info: &TraceInfo, main_trace: &ColMatrix<B>, domain: &StarkDomain<B>, partition_option: PartitionOptions) -> (Self::TraceLde<E>, TracePolyTable<E>) {
+        DefaultTraceLde::new(trace_info, main_trace, domain, partition_option)
+    }
+    fn new_evaluator<'a, E: FieldElement<BaseField = B>>(&self, air: &'a GenAir<B>, aux_rand_elements: Option<AuxRandElements<E>>, composition_coefficients: ConstraintCompositionCoefficients<E>) -> Self::ConstraintEvaluator<'a, E> {
+        DefaultConstraintEvaluator::new(air, aux_rand_elements, composition_coefficients)
+    }
+    fn build_constraint_commitment<E: FieldElement<BaseField = B>>(&self, composition_poly_trace: CompositionPolyTrace<E>, num_constraint_composition_columns: usize, domain: &StarkDomain<B>, partition_options: PartitionOptions) -> (Self::ConstraintCommitment<E>, CompositionPoly<E>) {
+        DefaultConstraintCommitment::new(composition_poly_trace, num_constraint_composition_columns, domain, partition_options)
+    }
+}
+
+fn prove_lenient(inst: &Instance, opts: &Opts) -> Option<(PubIn<B>, Proof)> {
+    let claimed: Vec<Vec<u128>> = inst.desc.asserts.iter().map(|a| a.values.clone()).collect();
+    let pub_in = PubIn { desc: Arc::new(inst.desc.clone()), claimed, conv: c64 as fn(u128) -> B };
+    let cols = build_trace(inst, P64);
+    let columns: Vec<Vec<B>> = cols.iter().map(|c| c.iter().map(|v| c64(*v)).collect()).collect();
+    let options = opts.build();
+    let pi = pub_in.clone();
+    let res = std::panic::catch_unwind(std::panic::AssertUnwindSafe(move || {
+        let trace = GenTrace::new(columns, 0, 0);
+        XProver { options, pub_in: pi }.prove(trace)
+    }));
+    match res { Ok(Ok(proof)) => Some((pub_in, proof)), _ => None }
+}
+
+pub fn run_x(rng: &mut Rng, out: &mut Out, n: usize) {
+    install_hook();
+    for it in 0..n {
+        // (a) a context whose field-modulus bytes are padded with zero bytes to 15.. bytes
+        if let Some(h) = make_honest(rng, 3, 4) {
+            let by = &h.bytes;
+            let meta_len = by[4] as usize | ((by[5] as usize) << 8);
+            let mod_pos = 6 + meta_len;
+            let mod_len = by[mod_pos] as usize;
+            for new_len in [14usize, 15, 16, 40] {
+                let mut b = by[..mod_pos].to_vec();
+                b.push(new_len as u8);
+                b.extend(&by[mod_pos + 1..mod_pos + 1 + mod_len]);
+                b.extend(vec![0u8; new_len - mod_len]);
+                b.extend(&by[mod_pos + 1 + mod_len..]);
+                let acc = Acc::Set(vec![h.opts.clone()]);
+                out.count("x:modulus-length");
+                let (bb, pi, a) = (b.clone(), h.pub_in.clone(), acc.clone());
+                out.case(&request(&h, &acc, &b), "~^(ok|err )", || run_real(&bb, pi, &a));
+            }
+        }
+        // (b) a proof for ANOTHER trace length, checked against the statement of the first one
+        {
+            let inst = gen_small_instance(rng, 4, 5);
+            let opts = gen_options(rng, &inst);
+            if let Some((pub_in, proof)) = prove(&inst, &opts) {
+                let h = Honest { bytes: proof.to_bytes(), inst, opts, pub_in, proof };
+                for n2 in [8usize, h.inst.n * 2] {
+                    let mut inst2 = Instance { desc: h.inst.desc.clone(), n: n2, init: h.inst.init.clone(), overrides: vec![] };
+                    inst2.desc.asserts = vec![crate::genair::AssertD { kind: 0, col: 0, first: 0, stride: 0, values: vec![h.inst.init[0] % P64] }];
+                    if inst2.desc.periodic.iter().any(|p| p.len() > n2) && n2 > h.inst.n { continue; }
+                    let mut o2 = h.opts.clone();
+                    if !fri_compatible(n2, o2.f, o2.rd) { o2.f = 2; o2.rd = 3; }
+                    while o2.q >= n2 * o2.b { o2.q /= 2; }
+                    let proof2 = if inst2.desc.periodic.iter().any(|p| p.len() > n2) { None } else { prove(&inst2, &o2) };
+                    let Some((_, p2)) = proof2 else { out.count("x:cross-length:second-proof-failed"); continue; };
+                    let b2 = p2.to_bytes();
+                    let acc = Acc::Set(vec![o2.clone()]);
+                    out.count("x:cross-length");
+                    let (bb, pi, a) = (b2.clone(), h.pub_in.clone(), acc.clone());
+                    out.case(&request(&h, &acc, &b2), "~^(ok|err )", || run_real(&bb, pi, &a));
+                }
+            }
+        }
+        // (d) C04: FRI partition exponent of a proof without FRI layers; (e) C04: partition options of
+        // the context changed to another valid value that the verifier accepts as well
+        if let Some(h) = make_honest(rng, 3, 3) {
+            let l = layout(&h);
+            let same = |b: &[u8]| Proof::from_bytes(b).map(|p| p == h.proof).unwrap_or(false);
+            let mut b = h.bytes.clone();
+            b[l.np_pos] = b[l.np_pos].wrapping_add(1);
+            let acc = Acc::Set(vec![h.opts.clone()]);
+            out.count(&format!("x:fri-num-partitions:layers={}", h.bytes[l.nl_pos]));
+            let (bb, pi, a, orc) = (b.clone(), h.pub_in.clone(), acc.clone(), if same(&b) { "ok" } else { "~^(err |PANIC )" });
+            out.case(&request(&h, &acc, &b), orc, || run_real(&bb, pi, &a));
+            let meta_len = h.bytes[4] as usize | ((h.bytes[5] as usize) << 8);
+            let opt_pos = 6 + meta_len + 1 + h.bytes[6 + meta_len] as usize;
+            for (i, name) in [(8usize, "partitions"), (9usize, "hash-rate"), (6usize, "constraint-batching"), (7usize, "deep-batching")] {
+                let mut a2 = h.opts.clone();
+                match i { 8 => a2.np = if a2.np == 1 { 2 } else { a2.np - 1 }, 9 => a2.hr = if a2.hr == 1 { 2 } else { a2.hr - 1 }, 6 => a2.bc = (a2.bc + 1) % 3, _ => a2.bd = (a2.bd + 1) % 3 }
+                let enc = a2.build().to_bytes();
+                let mut b = h.bytes.clone();
+                b[opt_pos + i] = enc[i];
+                for acc in [Acc::Set(vec![h.opts.clone(), a2.clone()]), Acc::Conj(0)] {
+                    out.count(&format!("x:ctx-opt:{name}"));
+                    let (bb, pi, a, orc) = (b.clone(), h.pub_in.clone(), acc.clone(), if same(&b) { "ok" } else { "~^(err |PANIC )" });
+                    out.case(&request(&h, &acc, &b), orc, || run_real(&bb, pi, &a));
+                }
+            }
+        }
+        // (c) options whose number of queries is not below the LDE domain size
+        {
+            let inst = gen_small_instance(rng, 3, 3);
+            let mut opts = gen_options(rng, &inst);
+            opts.g = 0;
+            opts.q = *[inst.n * opts.b, inst.n * opts.b + 5, 255].get(it % 3).unwrap();
+            if let Some((pub_in, proof)) = prove_lenient(&inst, &opts) {
+                let h = Honest { bytes: proof.to_bytes(), inst, opts, pub_in, proof };
+                for acc in [Acc::Set(vec![h.opts.clone()]), Acc::Conj(20)] {
+                    out.count("x:queries>=domain");
+                    let (bb, pi, a) = (h.bytes.clone(), h.pub_in.clone(), acc.clone());
+                    out.case(&request(&h, &acc, &h.bytes), "~^(ok|err )", || run_real(&bb, pi, &a));
+                }
+            } else { out.count("x:queries>=domain:prover-failed"); }
+        }
+    }
+}
